@@ -17,7 +17,7 @@ from .calls import MUTATING, CallMixin, VDictView, VEmptySet, VJoined
 from .expr import (AND, NOT, OR, ExprMixin, VEnumerate, VEnumSym, VVec, VZip, conc_bool, is_bool, is_int, is_str, I,
                    _free_consts)
 from .state import Obligation, Outcome, State
-from .values import (Unsupported, VConc, VDict, VFilter, VFunc, VList, VOpt, VRange, VRec, VRef, VSet, VTuple, fresh,
+from .values import (Unsupported, VConc, VDict, VFilter, VFunc, VHList, VList, VOpt, VRange, VRec, VRef, VSet, VTuple, fresh,
                      is_conc, is_leaf, ite_tree, key_sorts, key_terms, leaves, parse_shape, sel, shape_of, sto, tmap,
                      to_z3, tzip, uid)
 
@@ -47,6 +47,9 @@ class Engine(ExprMixin, CallMixin):
         self.contracts = dict(getattr(sidecar, "CONTRACTS", {}))
         self.inline = set(getattr(sidecar, "INLINE", ()))
         self.classes = dict(getattr(sidecar, "CLASSES", {}))
+        from . import values as _values
+        _values.REC_TABLE.clear()
+        _values.REC_TABLE.update({k: v for k, v in self.classes.items() if v.get("kind") == "record"})
         self.externals = dict(getattr(sidecar, "EXTERNALS", {}))
         self.pure_externals = set(getattr(sidecar, "PURE_EXTERNALS", ()))
         self.lemmas = dict(getattr(sidecar, "LEMMAS", {}))
@@ -138,10 +141,14 @@ class Engine(ExprMixin, CallMixin):
             if k.arg == "sorts":
                 sorts = ast.literal_eval(k.value)
         names = [a.arg for a in lam.args.args]
-        vs = [z3.Const(uid(n), self.sort_of(sorts.get(n, "int"))) for n in names]
+        # sorts={"x": "Cls"} with Cls a heap class of the sidecar: x ranges over all references of that class
+        vs = [z3.Const(uid(n), I if sorts.get(n) in self.classes or sorts.get(n) == "char" else self.sort_of(sorts.get(n, "int"))) for n in names]
         st2 = st.copy()
         for n, v in zip(names, vs):
-            st2.env[n] = v
+            st2.env[n] = VRef(sorts[n], v) if sorts.get(n) in self.classes else v
+            if sorts.get(n) == "char":  # x ranges over all characters (code points)
+                from .values import VChar
+                st2.env[n] = VChar(v)
         body = to_z3(self.truth(self.ev(lam.body, st2)))
         pats = []
         for k in node.keywords:
@@ -150,7 +157,10 @@ class Engine(ExprMixin, CallMixin):
                     terms = [to_z3(self.ev(ast.parse(t, mode="eval").body, st2)) for t in (ptxt if isinstance(ptxt, (list, tuple)) else [ptxt])]
                     pats.append(z3.MultiPattern(*terms) if len(terms) > 1 else terms[0])
         if pats:
-            return z3.ForAll(vs, body, patterns=pats) if is_all else z3.Exists(vs, body, patterns=pats)
+            try:
+                return z3.ForAll(vs, body, patterns=pats) if is_all else z3.Exists(vs, body, patterns=pats)
+            except z3.Z3Exception:
+                pass  # not a legal pattern for this instance of the clause (e.g. an ite inside): patterns are only hints
         return z3.ForAll(vs, body) if is_all else z3.Exists(vs, body)
 
     def spec_forall(self, node, st):
@@ -190,6 +200,46 @@ class Engine(ExprMixin, CallMixin):
         r = self.ev(node.args[0], st)
         return z3.And(to_z3(r.ident) >= to_z3(st.old.alloc), to_z3(r.ident) < to_z3(st.alloc))
 
+    def spec_ref(self, node, st):
+        """ref(Cls, i): the reference of class Cls with identity i (lets a clause quantify over references)"""
+        return VRef(node.args[0].id, to_z3(self.ev(node.args[1], st)))
+
+    def spec_rec(self, node, st):
+        """rec(Cls, f1=v1, ...): the record value of class Cls with the given fields (an Int given for a reference field is
+        taken as the identity); lets a clause quantify over record values through their scalar components"""
+        cls = node.args[0].id
+        info = self.classes[cls]
+        given = {k.arg: self.ev(k.value, st) for k in node.keywords}
+        if set(given) != set(info["fields"]):
+            raise ContractError(f"rec({cls}, ...) must give exactly the fields {sorted(info['fields'])}")
+        out = {}
+        for f, shp in info["fields"].items():
+            shp = self.shape(shp)
+            v = given[f]
+            if shp[0] == "ref" and not isinstance(v, VRef):
+                v = VRef(shp[1], to_z3(v))
+            out[f] = self.coerce(v, shp)
+        return VRec(cls, out)
+
+    def spec_opt(self, node, st):
+        """opt(isnone, v): the Optional value that is None when `isnone` and v otherwise"""
+        return VOpt(to_z3(self.truth(self.ev(node.args[0], st))), self.ev(node.args[1], st))
+
+    def spec_ident(self, node, st):
+        """ident(r): the identity (Int) of a reference"""
+        r = self.ev(node.args[0], st)
+        if not isinstance(r, VRef):
+            raise ContractError("ident() of a non-reference")
+        return to_z3(r.ident)
+
+    def spec_last_filter_index(self, node, st):
+        """last_filter_index(): the strictly increasing index map of the most recent list(filter(..)) / filtered
+        comprehension (element j of the result is element idx[j] of the filtered list), as a list of ints"""
+        lf = getattr(self, "last_filter", None)
+        if lf is None or lf["binders"]:
+            raise ContractError("no top-level filter has been evaluated")
+        return VList(lf["len"], lf["idx"], ("int",))
+
     def spec_vec(self, node, st):
         return VVec([self.ev(a, st) for a in node.args])
 
@@ -199,6 +249,47 @@ class Engine(ExprMixin, CallMixin):
         s_ = self.ev(node.args[0], st)
         pat = ast.literal_eval(node.args[1]) if not isinstance(node.args[1], ast.Name) else getattr(self.sidecar, node.args[1].id)
         return z3.InRe(to_z3(s_), to_z3_re(pat))
+
+    def spec_empty(self, node, st):
+        """empty('list[int]'): the empty container of the given shape"""
+        return self.default_of(self.shape(ast.literal_eval(node.args[0])))
+
+    def spec_snoc(self, node, st):
+        """snoc(L, x): the list L with x appended (spec-level L + [x] as an array store)"""
+        L, x = self.ev(node.args[0], st), self.ev(node.args[1], st)
+        if L.elems is None:
+            return self.list_literal([x])
+        return VList(L.length + 1 if isinstance(L.length, int) else to_z3(L.length) + 1,
+                     sto(L.elems, [to_z3(L.length)], self.coerce(x, L.eshape)), L.eshape)
+
+    def spec_filter_index(self, node, st):
+        """filter_index(b1, ..): ghost view of the filtering list built last (list(filter(..)) / [.. for .. if ..]): the
+        strictly increasing list of source positions that were kept; arguments = values of the enclosing comprehension
+        variables (none at statement level).  Only names the unknown already constrained by materialize_filter."""
+        lf = getattr(self, "last_filter", None)
+        if lf is None:
+            raise ContractError("filter_index(): no filtering list was built")
+        args = [to_z3(self.ev(a, st)) for a in node.args]
+        if len(args) != len(lf["binders"]):
+            raise ContractError(f"filter_index() needs {len(lf['binders'])} binder value(s)")
+        subs = list(zip(lf["binders"], args))
+        ln = z3.substitute(lf["len"], *subs) if subs else lf["len"]
+        ix = z3.substitute(lf["idx"], *subs) if subs else lf["idx"]
+        if node.func.id == "filter_pos":  # the inverse map: source position -> position in the filtered list (where kept)
+            return VList(z3.substitute(lf["n"], *subs) if subs else lf["n"], z3.substitute(lf["pos"], *subs) if subs else lf["pos"], ("int",))
+        return VList(ln, ix, ("int",))
+
+    spec_filter_pos = spec_filter_index
+
+    def spec_dictcomp_pos(self, node, st):
+        """dictcomp_pos(k): ghost view of the dict comprehension evaluated last: the source position whose value the key k holds"""
+        dc = getattr(self, "last_dictcomp", None)
+        if dc is None:
+            raise ContractError("dictcomp_pos(): no dict comprehension was evaluated")
+        k = self.ev(node.args[0], st)
+        if isinstance(k, VOpt) and dc["kshape"][0] != "opt":
+            k = k.val
+        return sel(dc["last"], *key_terms(k))
 
     def spec_is_none(self, node, st):
         v = self.ev(node.args[0], st)
@@ -227,7 +318,28 @@ class Engine(ExprMixin, CallMixin):
     def heap_read(self, st, ref, field):
         return sel(self.heap_tree(st, ref.cls, field), to_z3(ref.ident))
 
+    def with_touches(self, k, lc, st, run):
+        """run the loop body with the loop's declared write frame active (see havoc): every heap write is checked against it"""
+        t = lc.get("touches")
+        if not t:
+            return run()
+        frame = {"k": k, "names": {x.split(".")[1] for x in t},
+                 "cells": {x: [to_z3(self.spec_value(e_, st).ident) for e_ in es] for x, es in t.items()}}
+        stack = self.__dict__.setdefault("touch_stack", [])
+        stack.append(frame)
+        try:
+            return run()
+        finally:
+            stack.pop()
+
     def heap_write(self, st, ref, field, val):
+        for fr in self.__dict__.get("touch_stack", []):
+            if field in fr["names"]:
+                cells = fr["cells"].get(f"{ref.cls}.{field}")
+                if cells is None:
+                    raise Unsupported(f"loop #{fr['k']} writes {ref.cls}.{field}, which its `touches` clause does not name")
+                self.emit(f"loop{fr['k']}.writes_only_declared[{ref.cls}.{field}]", st, OR(*[to_z3(ref.ident) == c_ for c_ in cells]),
+                          None, kind="frame", guard=list(self.guard))
         tree = self.heap_tree(st, ref.cls, field)
         shp = self.field_shape(ref.cls, field)
         val = self.coerce(val, shp)
@@ -237,8 +349,20 @@ class Engine(ExprMixin, CallMixin):
 
     def havoc_heap(self, st, spec):
         cls, field = spec.split(".")
+        for fr in self.__dict__.get("touch_stack", []):
+            if field in fr["names"]:
+                raise Unsupported(f"a callee that may modify every {cls}.{field} is called inside loop #{fr['k']}, whose `touches` clause restricts that field")
         self.heap_tree(st, cls, field)
         st.heap[(cls, field)] = fresh(self.field_shape(cls, field), uid(f"H.{cls}.{field}"), (I,))
+        self.assume_heap_wf(st, cls, field)
+
+    def assume_heap_wf(self, st, cls, field):
+        """a list held in a field has a non-negative length, whatever object holds it (Python lists always do)"""
+        shp = self.field_shape(cls, field)
+        if shp[0] == "list":
+            tree = st.heap[(cls, field)]
+            r = z3.Int(uid("r"))
+            st.assume(z3.ForAll([r], z3.Select(to_z3(tree.length), r) >= 0))
 
     def attr_of(self, recv, name, node, st):
         if isinstance(recv, VRef):
@@ -261,6 +385,13 @@ class Engine(ExprMixin, CallMixin):
                 if self.is_property(qual):
                     return self.call_named(qual, [recv], {}, node, st)
                 return VFunc("method", (qual, recv), qual)
+            pure = getattr(self.sidecar, "PURE_ATTRS", {}).get(qual)
+            if pure is not None:
+                # a (cached) property of an immutable record that the sidecar declares to be a pure function of the record's
+                # fields (assumption listed there): an uninterpreted function of the record's value
+                ls = leaves(recv)
+                self.used_externals.add("attr:" + qual)
+                return self.ufun("attr:" + qual, *([x.sort() for x in ls] + [self.sort_of(pure)]))(*ls)
             raise Unsupported(f"attribute {qual}")
         if isinstance(recv, VConc):
             obj = recv.obj
@@ -344,10 +475,15 @@ class Engine(ExprMixin, CallMixin):
     def bind_target(self, target, val, st, node):
         if isinstance(target, ast.Name):
             st.env[target.id] = val
+            if target.id in st.narrowed:
+                st.narrowed = st.narrowed - {target.id}
             return
         if isinstance(target, (ast.Tuple, ast.List)):
             items = self.unpack(val, len(target.elts), node, st)
             for t, v in zip(target.elts, items):
+                if isinstance(t, ast.Name) and isinstance(v, VList) and v.elems is None and t.id in self.cur_locals:
+                    # `xs, ys = [], []`: the untyped literal [] gets its shape from the contract's `locals` table
+                    v = self.default_of(self.shape(self.cur_locals[t.id]))
                 self.bind_target(t, v, st, node)
             return
         self.assign_to(target, val, st, node)
@@ -376,6 +512,8 @@ class Engine(ExprMixin, CallMixin):
     def assign_to(self, target, val, st, node):
         if isinstance(target, ast.Name):
             st.env[target.id] = val
+            if target.id in st.narrowed:
+                st.narrowed = st.narrowed - {target.id}
             return
         if isinstance(target, ast.Attribute):
             recv = self.ev(target.value, st)
@@ -390,10 +528,15 @@ class Engine(ExprMixin, CallMixin):
         if isinstance(target, ast.Subscript):
             base = self.ev(target.value, st)
             idx = self.ev(target.slice, st)
+            if isinstance(base, VRef):
+                # item assignment on an object: its __setitem__ (list objects with identity, contracts, externals)
+                self.call_method(base, "__setitem__", [idx, val], {}, node, st)
+                return
             if isinstance(base, VList):
                 i = self.norm_index(idx, base.length, node)
                 new = VList(base.length, sto(base.elems, [to_z3(i)], self.coerce(val, base.eshape)), base.eshape)
             elif isinstance(base, VDict):
+                idx = self.coerce(idx, base.kshape)
                 ks = key_terms(idx)
                 from .calls import _store_multi
                 isnew = NOT(sel(base.dom, *ks))
@@ -405,13 +548,46 @@ class Engine(ExprMixin, CallMixin):
                         appended if conc_bool(isnew) else order)
                 new = VDict(base.kshape, base.vshape, _store_multi(base.dom, ks, z3.BoolVal(True)),
                             sto(base.vals, ks, self.coerce(val, base.vshape)), order, base.default)
+            elif isinstance(base, VHList):
+                # item assignment into a fixed-length heterogeneous list: constant index, same element shape
+                if not isinstance(idx, int) or isinstance(idx, bool):
+                    raise Unsupported("symbolic index store into a heterogeneous list")
+                if not (-len(base.items) <= idx < len(base.items)):
+                    self.may_raise(True, "IndexError", node)
+                    return
+                try:
+                    same = shape_of(val) == shape_of(base.items[idx])
+                except Unsupported:
+                    same = False
+                if not same:
+                    raise Unsupported("store into a heterogeneous list changes the element shape")
+                items = list(base.items)
+                items[idx] = val
+                new = VHList(items)
             elif isinstance(base, VEmptyDict):
                 raise Unsupported("store into an untyped empty dict (declare its shape in the contract's `locals`)")
             else:
                 raise Unsupported(f"subscript store on {type(base).__name__}")
             self.assign_to(target.value, new, st, node)
             return
+        if type(target).__name__ == "BoxTarget":
+            self.heap_write(st, target.ref, target.field, val)  # mutation of a list object: written back to the heap
+            return
         raise Unsupported("assignment target")
+
+    def dict_store(self, base, idx, val):
+        """the dict after `base[idx] = val` (same construction as the subscript-store branch of assign_to)"""
+        from .calls import _store_multi
+        ks = key_terms(idx)
+        isnew = NOT(sel(base.dom, *ks))
+        order = base.order
+        if order is not None:
+            appended = VList(order.length + 1 if isinstance(order.length, int) else to_z3(order.length) + 1,
+                             sto(order.elems, [to_z3(order.length)], self.coerce(idx, base.kshape)), order.eshape)
+            order = tzip(lambda a, b: z3.If(isnew, a, b), appended, order) if conc_bool(isnew) is None else (
+                appended if conc_bool(isnew) else order)
+        return VDict(base.kshape, base.vshape, _store_multi(base.dom, ks, z3.BoolVal(True)),
+                     sto(base.vals, ks, self.coerce(val, base.vshape)), order, base.default)
 
     def dd_touch(self, node, st, base, idx):
         """defaultdict read inserts the default value"""
@@ -466,6 +642,7 @@ class Engine(ExprMixin, CallMixin):
 
     def exec_stmt(self, s, st):
         self.guard, self.mayraise = [], []
+        self.cur_stmt = s
         self.run_ghost("before", s, st)
         m = getattr(self, "st_" + type(s).__name__, None)
         if m is None:
@@ -479,6 +656,14 @@ class Engine(ExprMixin, CallMixin):
     def st_Pass(self, s, st):
         return [Outcome("fall", st)]
 
+    def st_FunctionDef(self, s, st):
+        """nested `def`: binds the name to a closure over the current environment (applied like a lambda whose body is the
+        function's statement list; only reached if something calls it)"""
+        if s.decorator_list:
+            raise Unsupported("decorated nested function")
+        st.env[s.name] = VFunc("localdef", (s, dict(st.env)), s.name)
+        return [Outcome("fall", st)]
+
     def st_Expr(self, s, st):
         if isinstance(s.value, ast.Constant):
             return [Outcome("fall", st)]  # docstring
@@ -486,7 +671,13 @@ class Engine(ExprMixin, CallMixin):
         return self.with_raises(st, [Outcome("fall", st)], s)
 
     def st_Assign(self, s, st):
-        val = self.ev(s.value, st)
+        self.local_hint = None
+        if len(s.targets) == 1 and isinstance(s.targets[0], ast.Name) and s.targets[0].id in self.cur_locals:
+            self.local_hint = self.shape(self.cur_locals[s.targets[0].id])  # declared shape of the local being assigned
+        try:
+            val = self.ev(s.value, st)
+        finally:
+            self.local_hint = None
         val = self.typed_local(s, val, st)
         for t in s.targets:
             self.bind_target(t, val, st, s)
@@ -502,6 +693,14 @@ class Engine(ExprMixin, CallMixin):
                     return self.default_of(shp)
                 if isinstance(val, (VEmptyDict, VEmptySet)):
                     return self.empty_of(shp, val)
+                if shp == ("list", ("char",)) and isinstance(val, VList) and val.elems is not None and val.eshape == ("str",):
+                    # a list of one-character strings declared as a list of characters: only when every element is the
+                    # same constant character (e.g. ["." for _ in range(n)])
+                    probe = z3.simplify(z3.Select(val.elems, z3.Int(uid("q"))))
+                    if z3.is_string_value(probe) and len(probe.as_string()) == 1:
+                        from .values import VChar
+                        return VList(val.length, VChar(z3.K(z3.IntSort(), z3.IntVal(ord(probe.as_string())))), ("char",))
+                    raise Unsupported("list of strings assigned to a local declared as a list of characters")
         return val
 
     def empty_of(self, shp, val):
@@ -568,13 +767,69 @@ class Engine(ExprMixin, CallMixin):
             s1 = st.copy() if cb is None else st
             if cb is None:
                 s1.pc.append(to_z3(c))
+            self.narrow(s.test, True, s1)
             outs += self.exec_block(s.body, s1)
         if cb is not True:
             s2 = st.copy() if cb is None else st
             if cb is None:
                 s2.pc.append(NOT(c))
+            self.narrow(s.test, False, s2)
             outs += self.exec_block(s.orelse, s2)
         return outs
+
+    def not_none_names(self, test, truth):
+        """local names that are certainly not None when `test` evaluates to `truth` (syntactic: `x is None`,
+        `x is not None`, and/or/not combinations)"""
+        if isinstance(test, ast.UnaryOp) and isinstance(test.op, ast.Not):
+            return self.not_none_names(test.operand, not truth)
+        if isinstance(test, ast.BoolOp):
+            if isinstance(test.op, ast.And) == truth:  # (a and b) true / (a or b) false: every operand has that value
+                out = set()
+                for v in test.values:
+                    out |= self.not_none_names(v, truth)
+                return out
+            return set()
+        if isinstance(test, ast.Compare) and len(test.ops) == 1 and isinstance(test.left, ast.Name) \
+                and isinstance(test.comparators[0], ast.Constant) and test.comparators[0].value is None:
+            if (isinstance(test.ops[0], ast.IsNot) and truth) or (isinstance(test.ops[0], ast.Is) and not truth):
+                return {test.left.id}
+        return set()
+
+    def narrow(self, test, truth, st):
+        """on the branch where `x is not None` holds (it is in the path condition), an Optional local x denotes its
+        payload; remembered in st.narrowed so that a loop that re-assigns x havocs it as an Optional again"""
+        for n in self.not_none_names(test, truth):
+            v = st.env.get(n)
+            if isinstance(v, VOpt):
+                st.env[n] = v.val
+                st.narrowed = st.narrowed | {n}
+
+    def st_With(self, s, st):
+        """with EXPR as VAR: BODY  ==  mgr = EXPR; VAR = mgr.__enter__(); BODY; mgr.__exit__(None, None, None) on every way
+        out of BODY (fall-through, return, break, continue).  When BODY raises, __exit__ receives the exception and may
+        swallow it by returning a true value: only managers whose __exit__ returns a constant false value are handled."""
+        if len(s.items) != 1:
+            raise Unsupported("with statement with several items")
+        item = s.items[0]
+        mgr = self.ev(item.context_expr, st)
+        val = self.call_method(mgr, "__enter__", [], {}, s, st)
+        if item.optional_vars is not None:
+            self.bind_target(item.optional_vars, val, st, s)
+        outs = self.with_raises(st, [], s)
+        for o in self.exec_block(s.body, st):
+            self.guard, self.mayraise = [], []
+            self.cur_stmt = s
+            exc = [None, None, None] if o.kind != "raise" else [VConc(Exception), VConc(Exception()), VConc(None)]
+            r = self.call_method(mgr, "__exit__", exc, {}, s, o.st)
+            if o.kind == "raise" and conc_bool(self.truth(r)) is not False:
+                raise Unsupported("context manager whose __exit__ may swallow the exception")
+            outs += self.with_raises(o.st, [o], s)
+        return outs
+
+    def ev_Dict(self, node, st):
+        if node.keys:
+            raise Unsupported("non-empty dict literal")
+        return VEmptyDict()
 
     def st_Try(self, s, st):
         if s.finalbody:
@@ -624,6 +879,9 @@ class Engine(ExprMixin, CallMixin):
     def assigned_in(self, stmts):
         """names assigned and heap fields written (syntactic over-approximation) in a block"""
         names, fields = set(), set()
+        # list objects with identity (class entries with "boxed_list"): an item store or a mutating method call on any
+        # expression may go to such an object (its class is not known syntactically) -> all their content fields
+        boxed = [info["boxed_list"] for info in self.classes.values() if info.get("boxed_list")]
 
         def tgt(t):
             if isinstance(t, ast.Name):
@@ -634,6 +892,7 @@ class Engine(ExprMixin, CallMixin):
             elif isinstance(t, ast.Starred):
                 tgt(t.value)
             elif isinstance(t, ast.Subscript):
+                fields.update(boxed)
                 tgt(t.value)
             elif isinstance(t, ast.Attribute):
                 fields.add(t.attr)
@@ -653,6 +912,7 @@ class Engine(ExprMixin, CallMixin):
                     tgt(n.target)
                 elif isinstance(n, ast.Call) and isinstance(n.func, ast.Attribute):
                     if n.func.attr in MUTATING:
+                        fields.update(boxed)
                         tgt(n.func.value)
                     # contract calls: modifies
                 elif isinstance(n, ast.Subscript) and isinstance(n.ctx, ast.Load):
@@ -662,24 +922,70 @@ class Engine(ExprMixin, CallMixin):
                         names.add(b.id)
                 elif isinstance(n, ast.NamedExpr):
                     tgt(n.target)
+                elif isinstance(n, ast.withitem) and n.optional_vars is not None:
+                    tgt(n.optional_vars)
         return names, fields
 
-    def havoc(self, st, names, fields, tag):
+    def havoc(self, st, names, fields, tag, touches=None):
+        """touches (loop contract): {"Cls.f": [object expressions]} - for a field name that occurs there only the named
+        classes are written by the loop (checked at every write in the body), and only the cells of the named objects"""
+        touched_names = {k_.split(".")[1] for k_ in (touches or {})}
+        before = dict(st.heap)
+        self._havoc(st, names, {f for f in fields if f not in touched_names}, tag)
+        for key_, exprs in (touches or {}).items():
+            cls, f = key_.split(".")
+            if f not in fields:
+                continue
+            old = self.heap_tree(st, cls, f)
+            new = fresh(self.field_shape(cls, f), uid(f"H.{cls}.{f}@{tag}"), (I,))
+            st.heap[(cls, f)] = new
+            self.assume_heap_wf(st, cls, f)
+            targets = [to_z3(self.spec_value(e_, st).ident) for e_ in exprs]
+            r = z3.Int(uid("r"))
+            same = AND(*[z3.Select(x, r) == z3.Select(y, r) for x, y in zip(leaves(new), leaves(old))])
+            st.assume(z3.ForAll([r], z3.Implies(AND(*[r != t for t in targets]), same)))
+
+    def _havoc(self, st, names, fields, tag):
         for n in sorted(names):
             if n in st.env:
                 v = st.env[n]
                 try:
                     st.env[n] = self.fresh_like(v, uid(f"{n}@{tag}"))
+                    if n in st.narrowed:  # narrowed Optional re-assigned in the loop: unknown Optional at the head
+                        st.env[n] = VOpt(z3.Bool(uid(f"{n}@{tag}.none")), st.env[n])
+                        st.narrowed = st.narrowed - {n}
                 except Unsupported as e:
                     raise Unsupported(f"cannot havoc loop variable {n}: {e}")
         for (cls, f) in list(st.heap.keys()):
             if f in fields:
                 st.heap[(cls, f)] = fresh(self.field_shape(cls, f), uid(f"H.{cls}.{f}@{tag}"), (I,))
+                self.assume_heap_wf(st, cls, f)
         for cls, info in self.classes.items():
             for f in info.get("fields", {}):
                 if f in fields and (cls, f) not in st.heap and info.get("kind") != "record":
                     self.heap_tree(st, cls, f)
                     st.heap[(cls, f)] = fresh(self.field_shape(cls, f), uid(f"H.{cls}.{f}@{tag}"), (I,))
+                    self.assume_heap_wf(st, cls, f)
+
+    def havoc_ghost(self, st, stmts, tag):
+        """ghost variables that a ghost block anchored inside the loop body re-binds (`let`) are loop-modified state:
+        unknown at the loop head like any assigned program variable (constrained only by the invariants)"""
+        lets = [(g, [c.strip()[4:].split("=", 1)[0].strip() for c in g["do"] if c.strip().startswith("let ")]) for g in self.cur_ghost]
+        lets = [(g, ns) for g, ns in lets if any(n in st.ghost for n in ns)]
+        if not lets:
+            return
+        hit = set()
+        for top in stmts:
+            for n in ast.walk(top):
+                if isinstance(n, ast.stmt):
+                    text = ast.unparse(n)
+                    for g, ns in lets:
+                        # same firing condition as run_ghost (anchor text and, if given, the enclosing loop ordinal)
+                        if text.startswith(g["at"]) and ("loop" not in g or g["loop"] == self.enclosing_loop.get(id(n))):
+                            hit.update(ns)
+        for n in sorted(hit):
+            if n in st.ghost:
+                st.ghost[n] = self.fresh_like(st.ghost[n], uid(f"{n}@{tag}"))
 
     def fresh_like(self, v, name):
         if isinstance(v, VList) and v.elems is None:
@@ -778,6 +1084,15 @@ class Engine(ExprMixin, CallMixin):
 
     def st_For(self, s, st):
         it = self.ev(s.iter, st)
+        boxed_it = None
+        if isinstance(it, VRef) and self.classes.get(it.cls, {}).get("boxed_list"):
+            # iteration over a list object: Python reads element k of the *current* list at step k.  The content at loop
+            # entry is iterated instead, which is the same provided the body leaves this list object unchanged - that is an
+            # obligation of every iteration (`iterated-list-unchanged`), assumed at the loop head like an invariant
+            boxed_it = (it, self.classes[it.cls]["boxed_list"])
+            it = self.heap_read(st, *boxed_it)
+            if isinstance(it.length, int):
+                raise Unsupported("iteration over a list object of concrete length")
         pre = self.with_raises(st, [], s)
         conc = self.conc_iter(it) if not isinstance(it, VFilter) else None
         if conc is not None and id(s) in self.loop_ordinal and self.loop_ordinal[id(s)] not in self.cur_loops:
@@ -802,6 +1117,8 @@ class Engine(ExprMixin, CallMixin):
                 state.env[s.target.id] = to_z3(kval) + lo_t if not (is_conc(lo) and lo == 0) else kval
             if lc.get("seq"):
                 state.ghost[lc["seq"]] = getattr(self, "last_enum", None)
+            if lc.get("iter"):
+                state.ghost[lc["iter"]] = it  # ghost name for the value of the iterable expression (evaluated once)
 
         # init
         s0 = st
@@ -809,11 +1126,14 @@ class Engine(ExprMixin, CallMixin):
         self.check_invs(k, lc, s0, "init", s)
         # arbitrary iteration
         sh = s0.copy()
-        self.havoc(sh, names - ({s.target.id} if direct else set()), fields, f"loop{k}")
+        self.havoc(sh, names - ({s.target.id} if direct else set()), fields, f"loop{k}", lc.get("touches"))
+        self.havoc_ghost(sh, s.body, f"loop{k}")
         kv = z3.Int(uid(f"it{k}"))
         bind_head(sh, kv)
         sh.assume(z3.And(kv >= 0, kv <= zn))
         self.assume_invs(lc, sh)
+        if boxed_it:
+            sh.assume(_same_list(self.heap_read(sh, *boxed_it), it))
         outs = list(pre)
         # body
         sb = sh.copy()
@@ -835,10 +1155,12 @@ class Engine(ExprMixin, CallMixin):
             skip_states = [sk]
         after = []
         dec = lc.get("decreases")
-        for o in self.exec_block(s.body, sb) + [Outcome("fall", x_) for x_ in skip_states]:
+        for o in self.with_touches(k, lc, sb, lambda: self.exec_block(s.body, sb)) + [Outcome("fall", x_) for x_ in skip_states]:
             if o.kind in ("fall", "continue"):
                 bind_head(o.st, kv + 1)
                 self.check_invs(k, lc, o.st, "preserve", s)
+                if boxed_it:
+                    self.emit(f"loop{k}.iterated-list-unchanged", o.st, _same_list(self.heap_read(o.st, *boxed_it), it), s, kind="invariant")
             elif o.kind == "break":
                 after.append(o.st)
             else:
@@ -887,9 +1209,11 @@ class Engine(ExprMixin, CallMixin):
         names, fields = self.assigned_in(s.body)
         self.check_invs(k, lc, st, "init", s)
         sh = st.copy()
-        self.havoc(sh, names, fields, f"loop{k}")
+        self.havoc(sh, names, fields, f"loop{k}", lc.get("touches"))
+        self.havoc_ghost(sh, s.body, f"loop{k}")
         self.assume_invs(lc, sh)
         self.guard, self.mayraise = [], []
+        self.cur_stmt = s.body[0]  # the test is evaluated once per iteration, i.e. inside the loop
         c = self.truth(self.ev(s.test, sh))
         outs = self.with_raises(sh, [], s)
         sb, se = sh.copy(), sh.copy()
@@ -901,7 +1225,7 @@ class Engine(ExprMixin, CallMixin):
             d0 = to_z3(self.spec_value(dec, sb))
             self.emit(f"loop{k}.decreases.bounded", sb, d0 >= 0, s, kind="termination")
         after = []
-        for o in self.exec_block(s.body, sb):
+        for o in self.with_touches(k, lc, sb, lambda: self.exec_block(s.body, sb)):
             if o.kind in ("fall", "continue"):
                 self.check_invs(k, lc, o.st, "preserve", s)
                 if dec:
@@ -958,21 +1282,24 @@ class Engine(ExprMixin, CallMixin):
             self.use_lemma(cmd[4:], st, node)
         elif cmd.startswith("forall "):
             # "forall x | use L(..x..) | assert P(x)": prove P for an arbitrary x, then assume forall x. P(x)
+            # several variables: "forall x, y | ..."; an assert inside is available to the later parts (proved, then assumed)
             parts = [p.strip() for p in cmd.split("|")]
-            var = parts[0][7:].strip()
-            c0 = z3.Int(uid(var))
+            vars_ = [v.strip() for v in parts[0][7:].split(",")]
+            cs = [z3.Int(uid(v)) for v in vars_]
             s2 = st.copy()
             s2.ghost = dict(st.ghost)
-            s2.ghost[var] = c0
+            for v, c0 in zip(vars_, cs):
+                s2.ghost[v] = c0
             goal = None
             for p_ in parts[1:]:
                 if p_.startswith("assert "):
                     goal = to_z3(self.spec_eval(p_[7:], s2))
                     self.emit(f"ghost.forall[{g.get('label', g['at'][:24])}]", s2, goal, node, kind="ghost")
+                    s2.assume(goal)
                 else:
                     self.ghost_cmd(p_, s2, node, g)
-            b = z3.Int(uid(var + "b"))
-            st.assume(z3.ForAll([b], z3.substitute(goal, (c0, b))))
+            bs = [z3.Int(uid(v + "b")) for v in vars_]
+            st.assume(z3.ForAll(bs, z3.substitute(goal, *zip(cs, bs))))
         else:
             raise ContractError(f"unknown ghost command {cmd!r}")
 
@@ -1061,12 +1388,16 @@ class Engine(ExprMixin, CallMixin):
         for p in c.params:
             if p not in pnames:
                 raise ContractError(f"{cname}: contract parameter {p} is not a parameter of the function")
+        # ghost parameters: specification-only values the contract is stated relative to (supplied by the caller's ghost state)
+        for g_, shp_ in getattr(c, "ghost_params", {}).items():
+            st.env[g_] = self.fresh_value(self.shape(shp_), g_, st)
         # all declared heap fields exist at entry
         for cls, info in self.classes.items():
             if info.get("kind") == "record":
                 continue
             for f in info["fields"]:
                 self.heap_tree(st, cls, f)
+                self.assume_heap_wf(st, cls, f)
         st.alloc = z3.Int("alloc0")
         st.assume(st.alloc >= 1)
         for p in c.params:
@@ -1096,7 +1427,7 @@ class Engine(ExprMixin, CallMixin):
             res = o.value if o.kind == "return" else None
             post = o.st.copy()
             post.env = dict(o.st.env)
-            for p_ in c.params:  # parameters in postconditions denote their entry values
+            for p_ in list(c.params) + list(getattr(c, "ghost_params", {})):  # parameters in postconditions denote their entry values
                 post.env[p_] = entry.env[p_]
             post.env["result"] = res
             if getattr(c, "returns", None) is not None and res is not None:
@@ -1105,11 +1436,19 @@ class Engine(ExprMixin, CallMixin):
                 except Unsupported:
                     pass
             post.old = entry
+            for cmd in getattr(c, "ghost_exit", []):  # ghost commands run at every normal exit (e.g. naming a callee's ghost results)
+                self.ghost_cmd(cmd, post, fdef, {"at": "exit", "label": "exit"})
             for k, text in enumerate(c.ensures):
                 label = getattr(c, "ensures_labels", {}).get(k, str(k))
                 self.emit(f"ensures.{label}", post, self.spec_eval(text, post), fdef, kind="post")
             # frame
             mods = set(getattr(c, "modifies", []))
+            # "Cls.f@expr": only the cell of the object denoted by expr (evaluated in the entry state) may change
+            cell_mods = {}
+            for m_ in mods:
+                if "@" in m_:
+                    fld, expr = m_.split("@", 1)
+                    cell_mods.setdefault(fld, []).append(to_z3(self.spec_value(expr, entry).ident))
             for (cls, f), tree in post.heap.items():
                 if f"{cls}.{f}" in mods:
                     continue
@@ -1121,7 +1460,8 @@ class Engine(ExprMixin, CallMixin):
                     continue
                 r = z3.Int(uid("r"))
                 same = AND(*[z3.Select(x, r) == z3.Select(y, r) for x, y in zip(la, lb)])
-                self.emit(f"frame.{cls}.{f}", post, z3.ForAll([r], z3.Implies(z3.And(r >= 1, r < to_z3(entry.alloc)), same)), fdef, kind="frame")
+                others = [r != t for t in cell_mods.get(f"{cls}.{f}", [])]
+                self.emit(f"frame.{cls}.{f}", post, z3.ForAll([r], z3.Implies(z3.And(r >= 1, r < to_z3(entry.alloc), *others), same)), fdef, kind="frame")
         for g in self.cur_ghost:
             if not g.get("hits"):
                 raise ContractError(f"{cname}: ghost anchor {g['at']!r} matched no statement")
@@ -1163,6 +1503,9 @@ class Engine(ExprMixin, CallMixin):
         for r in lem.get("requires", []):
             st.assume(to_z3(self.spec_eval(r, st)))
         first = len(self.obls)
+        # proof steps: ghost commands (let / assert / use) run in order; every assert is proved where it stands, then assumed
+        for k, cmd in enumerate(lem.get("steps", [])):
+            self.ghost_cmd(cmd, st, None, {"at": "lemma", "label": f"step{k}"})
         for k, e in enumerate(lem["ensures"]):
             self.emit(f"ensures.{k}", st, self.spec_eval(e, st), None, kind="lemma")
         return self.obls[first:]
@@ -1196,6 +1539,14 @@ def VEnumAttr(engine, sym, name):
         k = m.name if sym.by == "name" else m.value
         res = engine.merge(key == k, engine.from_py(getattr(m, name)), res)
     return res
+
+
+def _same_list(a, b):
+    """the two list values have the same length and the same elements (references: the same objects)"""
+    q = z3.Int(uid("q"))
+    ea, eb = leaves(sel(a.elems, q)), leaves(sel(b.elems, q))
+    n = to_z3(a.length)
+    return z3.And(n == to_z3(b.length), z3.ForAll([q], z3.Implies(z3.And(q >= 0, q < n), AND(*[x == y for x, y in zip(ea, eb)]))))
 
 
 def _as_load(t):
